@@ -73,7 +73,7 @@ NONTRIVIAL = {
 
 ASSUME = [
     "no integration delays; traces and delays are whole micro-seconds (runs with sub-micro-second times are skipped and counted)",
-    "SimMech takes WHEN an aggregate base delay is pushed, its amount, and the bottleneck's extra delay as inputs (none in model checking, logged values in trace validation) and leaves same-time, same-priority order nondeterministic",
+    "SimMech computes when an aggregate base delay is pushed and its amount (delay.rs heuristics) and the bottleneck's extra delay (one-second window against the packets-per-second limit, parse_trace's default limit); in model checking the bottleneck is out of reach of the bounds (pps = 0); same-time, same-priority order is left nondeterministic",
     "the frameworks inside the simulator are an oracle in model checking (<= Budget actions from a small alphabet)",
     "trace validation reads the add-only hook records of cargo feature `verif` (events with private flags, actions returned, timer firings, exit reason)",
 ]
